@@ -198,7 +198,9 @@ class Program:
 
     def closures_of(self, fn):
         pre = fn.id + "::{closure#"
-        return [f for fid, f in self.fns.items() if fid.startswith(pre)]
+        # (closures of a helper that was inlined into fn live in fn now: inline.py re-parents them)
+        return [f for fid, f in self.fns.items() if fid.startswith(pre) or (f.raw.get("parent") == fn.id and "{closure#" in fid and
+                                                                             fid.rsplit("::{closure#", 1)[0] in (fn.raw.get("absorbed") or []))]
 
     def fn_at(self, file, line):
         """Innermost function (or closure) containing file:line."""
